@@ -645,13 +645,17 @@ def row_spans(ctx):
               reason='consecutive spans share their boundary: no row skipped, none read twice')
     if inner[0] == 'adj':
         e = inner[1]
-        nonempty = e[3] if e[0] == 'ite' else e
+        def _is_empty_array(emp):
+            return emp[0] == 'call' and emp[1] == G('np.array') and emp[2] and emp[2][0][0] == 'call' \
+                and emp[2][0][1] == G('$new_list')
+        nonempty = e
+        if e[0] == 'ite':
+            nonempty = e[2] if _is_empty_array(e[3]) else e[3]
         ctx.eq(R, 'edges', nonempty, env['edges'], ctx.where(fs),
                'offsets of rows i0..i1 inclusive (closing offset included) are pruned; indices shifted back by i0')
         if e[0] == 'ite':
-            emp = e[2]
-            ok = emp[0] == 'call' and emp[1] == G('np.array') and emp[2] and emp[2][0][0] == 'call' \
-                and emp[2][0][1] == G('$new_list')
+            emp = e[3] if _is_empty_array(e[3]) else e[2]
+            ok = _is_empty_array(emp)
             ctx.check(ok, R, 'empty-window', ctx.where(fs), found=emp, expected='no edges', reason='an empty window yields no spans')
     fp = ctx.fa(f'{RQ}.arg_prune_partition')
     r = returns(fp)
